@@ -27,11 +27,13 @@ struct Lane {
     arrivals: u64,
     done: bool,
     dead: bool, // the thread panicked
+    last: &'static str, // last yield point passed or reached (also while the gates are open)
 }
 #[derive(Default)]
 struct Gate {
     epoch: u64,
-    free: bool, // yield points pass through (probe and clean-up)
+    free: bool, // yield points pass through (probe, free completion and clean-up)
+    abandon: bool, // the controller must stop executing commands
     lanes: [Lane; 2],
     seen_final: bool, // the yield point t_final exists => the fix is applied
     points_seen: u64,
@@ -58,7 +60,9 @@ fn hook(point: &'static str) {
         if point == "t_final" { gate.seen_final = true; }
         if EPOCH.with(|e| e.get()) == 0 { EPOCH.with(|e| e.set(gate.epoch)); }
         // a thread left over from an earlier case never takes part in the current one
-        if EPOCH.with(|e| e.get()) != gate.epoch || gate.free { return; }
+        if EPOCH.with(|e| e.get()) != gate.epoch { return; }
+        gate.lanes[lane].last = point;
+        if gate.free { return; }
     }
     // after an abort (listener returned true) the VM fails every further rule: the listener is
     // entered again, loads is_done (still true: only run() resets it, after join) and returns.
@@ -182,6 +186,7 @@ struct Shared {
 }
 
 fn is_free() -> bool { with_gate(|g| g.free) }
+fn is_abandoned() -> bool { with_gate(|g| g.abandon) }
 
 fn controller(cfg: &'static Cfg, ld: Arc<Loaded>, cap: usize, bps: Vec<usize>, cmds: Vec<Cmd>, sh: Arc<Shared>) {
     let mut ctx = DebuggerContext::default();
@@ -191,7 +196,7 @@ fn controller(cfg: &'static Cfg, ld: Arc<Loaded>, cap: usize, bps: Vec<usize>, c
     let mut aborted = false;
     for c in cmds {
         hook("cmd");
-        if is_free() { aborted = true; break; }
+        if is_abandoned() { aborted = true; break; }
         match c {
             Cmd::Run => {
                 let (tx, rx) = sync_channel(cap);
@@ -221,8 +226,8 @@ fn controller(cfg: &'static Cfg, ld: Arc<Loaded>, cap: usize, bps: Vec<usize>, c
                                 Ok(ev) => break show_event(&ev, &ld),
                                 Err(RecvTimeoutError::Disconnected) => break "disc".to_string(),
                                 Err(RecvTimeoutError::Timeout) =>
-                                    if is_free() { abandoned = true; break String::new() }
-                                    else if t0.elapsed() > Duration::from_millis(3000) { break "TIMEOUT".to_string() },
+                                    if is_abandoned() { abandoned = true; break String::new() }
+                                    else if t0.elapsed() > Duration::from_millis(if is_free() { 300 } else { 3000 }) { break "TIMEOUT".to_string() },
                             }
                         }
                     }
@@ -237,8 +242,8 @@ fn controller(cfg: &'static Cfg, ld: Arc<Loaded>, cap: usize, bps: Vec<usize>, c
         *sh.finished.lock().unwrap() = true;
         with_gate(|g| { g.lanes[C].arrivals += 1; g.lanes[C].done = true; });
         CV.notify_all();
-        // wait for the scheduler to open the gates before cleaning up
-        wait_until(60_000, |g| g.free);
+        // wait for the scheduler before cleaning up
+        wait_until(60_000, |g| g.abandon);
     }
     // clean-up: let the parsing thread run to completion so that no thread is left behind
     ctx.delete_all_breakpoints();
@@ -263,6 +268,7 @@ fn new_epoch(free: bool) {
     with_gate(|g| {
         g.epoch += 1;
         g.free = free;
+        g.abandon = false;
         g.lanes = [Lane::default(), Lane::default()];
     });
     EPOCH.with(|e| e.set(0));
@@ -301,7 +307,15 @@ fn force(cfg: &'static Cfg, ld: &Arc<Loaded>, cap: usize, bps: &[usize], cmds: &
     let t_sched = t_case.elapsed();
     // final status: did the controller get through its commands?  if not, is anything able to move?
     let fin = *sh.finished.lock().unwrap();
-    let status = if timed_out { "TIMEOUT".to_string() } else if fin { "FIN".to_string() } else {
+    let status = if timed_out {
+        // the real threads left the schedule: let them run freely for a moment (real, uncontrolled interleaving);
+        // what the controller then observes still has to satisfy the specification
+        with_gate(|g| g.free = true);
+        CV.notify_all();
+        let t0 = Instant::now();
+        while !*sh.finished.lock().unwrap() && t0.elapsed() < Duration::from_millis(1500) { wait_until(5, |_| false); }
+        if *sh.finished.lock().unwrap() { "TIMEOUT-FIN".to_string() } else { format!("TIMEOUT-STUCK@{}", with_gate(|g| g.lanes[C].last)) }
+    } else if fin { "FIN".to_string() } else {
         let (a0, a1) = with_gate(|g| {
             for l in 0..2 { if g.lanes[l].at.is_some() { g.lanes[l].grants += 1; } }
             (g.lanes[C].arrivals, g.lanes[P].arrivals)
@@ -313,7 +327,7 @@ fn force(cfg: &'static Cfg, ld: &Arc<Loaded>, cap: usize, bps: &[usize], cmds: &
     };
     let t_status = t_case.elapsed();
     // clean-up: open the gates, drain whatever channel the parsing thread may be blocked on
-    with_gate(|g| g.free = true);
+    with_gate(|g| { g.free = true; g.abandon = true; });
     CV.notify_all();
     let deadline = Instant::now() + Duration::from_millis(5000);
     while !*sh.cleaned.lock().unwrap() && Instant::now() < deadline {
@@ -360,7 +374,7 @@ fn main() {
             ctx.run(CFGS[0].rule, tx).unwrap();
             let _ = rx.recv_timeout(Duration::from_millis(3000));
             let t0 = Instant::now();
-            while ctx.cont().is_ok() && t0.elapsed() < Duration::from_millis(3000) { std::thread::yield_now(); }
+            while ctx.cont().is_ok() && t0.elapsed() < Duration::from_millis(3000) { while rx.try_recv().is_ok() {} std::thread::yield_now(); }
             let (seen, fin) = with_gate(|g| (g.points_seen, g.seen_final));
             writeln!(out, "MODE\t{}", if seen == 0 { "nohook" } else if fin { "fixed" } else { "literal" }).unwrap();
             for (c, ld) in CFGS.iter().zip(loaded.iter()) {
